@@ -317,6 +317,8 @@ fn gen(rng: &mut Rng, tier: &str) -> Vec<(String, Value)> {
 // The schedules stream stops threads at the registry's rendezvous points; what happens inside one step (a counter
 // update, the lookup under the lock) is atomic there by assumption.  This stream lets real threads open and close
 // many connections at once and looks at the end state only: an oracle-only negative test without a model.
+// Since round-3 seed C36-3 it also runs the real RtrStream::new with per-connection setups that fail (keep-alive
+// refused by the kernel) next to ones that succeed: a failed setup opens no connection and must leave no count.
 
 fn gen_stress(_rng: &mut Rng, tier: &str) -> Vec<(String, Value)> {
     let mut v = Vec::new();
@@ -347,6 +349,20 @@ fn run_stress(input: &Value) -> CaseOut {
             }).collect();
             barrier.wait();
             for client in open { client.update(|m| m.dec_current_connections()); }
+            // connections whose setup fails inside the real RtrStream::new (a keep-alive time the kernel refuses:
+            // TCP_KEEPIDLE above 32767 s is EINVAL on Linux) open nothing, so they must leave no count behind;
+            // interleaved with connections that are set up and closed normally
+            let _guard = net().rt.enter();
+            for i in 0..(conns / 200).max(8) {
+                let a = (t + i) % addrs;
+                let addr = SocketAddr::new(IpAddr::V4(Ipv4Addr::new(192, 0, (a / 256) as u8, (a % 256) as u8)), 4100 + t as u16);
+                let keepalive = if i % 2 == 0 { Some(std::time::Duration::from_secs(40_000)) } else { None };
+                let sock = tokio::net::TcpStream::from_std(net().server_side.try_clone().expect("dup")).expect("from_std");
+                match Conn::new(sock, addr, keepalive, &metrics) {
+                    Ok(conn) => { assert!(keepalive.is_none(), "the kernel accepted a keep-alive time of 40000 s"); drop(conn) }
+                    Err(_) => assert!(keepalive.is_some(), "plain connection setup failed"),
+                }
+            }
         })
     }).collect();
     for h in handles { h.join().unwrap(); }
